@@ -60,6 +60,13 @@ def frame(data=None):
     return _FRAMES[key][1]
 
 
+def frame_like(data):
+    """an uncached frame (for data dicts built inside a driver)"""
+    import pandas
+
+    return pandas.DataFrame(data)
+
+
 def printed_term(t, ctx):
     """how formulaic prints a written term (back-quoted names lose their quotes)"""
     pr = ctx.get("printed") or {}
@@ -316,7 +323,19 @@ def drv_numeric(c, ctx, col):
     if note:
         col.violation("structured :: Formula(%r).differentiate(%s).get_model_matrix(df)" % (shown, wrt_s),
                       dict(detail, error=note), sig="structured-derivative-not-a-formula")
-    for side, (D, mm) in res.items():
+    rounds = [("", res, data)]
+    if ctx.get("rematerialize"):
+        # the spec attached to the derivative's matrix must reproduce it: same data, and other data
+        other = {k: [2 * x + 1 for x in reversed(v)] for k, v in data.items()}
+        for rlabel, rdata in (("rematerialized-", data), ("rematerialized-on-other-data-", other)):
+            try:
+                again = {side: (D, mm.model_spec.get_model_matrix(frame_like(rdata))) for side, (D, mm) in res.items()}
+            except Exception as e:
+                violation(key, dict(detail, error="%s: %s" % (type(e).__name__, str(e)[:200])), sig=rlabel + "raises")
+                return
+            rounds.append((rlabel, again, rdata))
+    for rlabel, res_r, data_r in rounds:
+      for side, (D, mm) in res_r.items():
         dterms = list(D)
         want = want_all[side]
         if len(dterms) != len(want):
@@ -326,35 +345,35 @@ def drv_numeric(c, ctx, col):
         values = numpy.asarray(mm.todense() if output == "sparse" else mm, dtype=float)
         ncols = values.shape[1] if values.ndim == 2 else 0
         detail_side = dict(detail, side=side, derivative=[str(t) for t in dterms], columns=list(getattr(mm, "columns", [])),
-                           matrix_first_row=values[0].tolist() if ncols else [],
+                           matrix_first_row=values[0].tolist() if ncols else [], round=rlabel or "first materialization",
                            term_indices={str(t): list(i) for t, i in ms.term_indices.items()})
         for t_written, dterm, w in zip(written[side], dterms, want):
             if w[0] != "TERM":
                 col.count("zero-or-unspecified-term-skipped")
                 continue
             factors = CR.split_term(t_written)
-            fd1 = CR.finite_difference(factors, wrt, data, 1.0)
-            fd2 = CR.finite_difference(factors, wrt, data, 0.5)
-            direct = CR.column(w[1], data)
+            fd1 = CR.finite_difference(factors, wrt, data_r, 1.0)
+            fd2 = CR.finite_difference(factors, wrt, data_r, 0.5)
+            direct = CR.column(w[1], data_r)
             if not (close_cols(fd1, direct) and close_cols(fd2, direct)):
                 raise HarnessError("finite differences disagree with the symbolic rule for %r wrt %r" % (t_written, wrt))
             d = dict(detail_side, term=t_written, derivative_term=str(dterm), want_column=fd1)
             try:
                 idx = list(ms.term_indices[dterm])
             except KeyError:
-                violation(key, d, sig="derivative-term-missing-from-term-indices")
+                violation(key, d, sig=rlabel + "derivative-term-missing-from-term-indices")
                 return
             if len(idx) == 0:
-                violation(key, d, sig="unit-derivative-has-no-column" if not w[1] else "derivative-term-has-no-column")
+                violation(key, d, sig=rlabel + ("unit-derivative-has-no-column" if not w[1] else "derivative-term-has-no-column"))
                 return
             if len(idx) != 1 or idx[0] >= ncols:
-                violation(key, dict(d, indices=idx, n_columns=ncols), sig="derivative-term-index-out-of-range")
+                violation(key, dict(d, indices=idx, n_columns=ncols), sig=rlabel + "derivative-term-index-out-of-range")
                 return
             got = values[:, idx[0]].tolist()
             if not close_cols(got, fd1):
-                violation(key, dict(d, got_column=got), sig="wrong-derivative-column")
+                violation(key, dict(d, got_column=got), sig=rlabel + "wrong-derivative-column")
                 return
-            col.count("columns-agree")
+            col.count(rlabel + "columns-agree")
     if ctx.get("impl_fd") and path == "formula" and len(wrt) == 1 and wrt[0] in data:
         # differential form of the same clause: the derivative column equals the forward difference of the column the
         # implementation itself materializes for the ORIGINAL term at x and at x + h (h = 1)
@@ -398,7 +417,8 @@ def drv_numeric(c, ctx, col):
 TRANSFORM_NAMES = ["C", "Diff", "Helmert", "I", "Poly", "Q", "Sum", "Treatment", "bs", "cc", "center", "contr", "cr", "cs",
                    "exp", "exp10", "exp2", "hashed", "lag", "log", "log10", "log2", "np", "poly", "scale", "standardize"]
 OTHER_NAMES = ["abs", "a.b", "_u", "X1", "\u00e9"]               # a Python builtin, a dotted name, underscore, mixed case, non-ASCII
-QUOTED_NAMES = ["a b", "b-2"]                                    # written back-quoted, printed and differentiated bare
+QUOTED_NAMES = ["a b", "b-2", "x:y", "odds 3:1"]                 # written back-quoted, differentiated by the bare name; printed bare
+#                                                                  unless the name contains ':' (then the quotes are kept)
 FUNC_NAMES = ["log", "exp", "center", "scale"]                   # column N next to the factor N(a)
 NAME_ROLES = ([("transform", n) for n in TRANSFORM_NAMES] + [("identifier", n) for n in OTHER_NAMES]
               + [("quoted", n) for n in QUOTED_NAMES] + [("function", n) for n in FUNC_NAMES])
@@ -415,7 +435,7 @@ def role_ctx(role, name, base):
         terms = [t for r in (1, 2, 3) for t in itertools.combinations(factors, r)]
         data = {"a": DATA["a"], name: DATA["b"], "c": DATA["c"], "y": DATA["y"]}
         sub = dict(base)
-        sub.update(terms=terms, printed={tok: name}, wrt_vars=["a", name, "c", "d"], data=data)
+        sub.update(terms=terms, printed={tok: CR.print_factor(name)}, wrt_vars=["a", name, "c", "d"], data=data)
         _ROLE_CTX[key] = sub
     return _ROLE_CTX[key]
 
@@ -545,6 +565,80 @@ def drv_fitted(c, ctx, col):
     col.count("columns-agree")
 
 
+# histories on ONE formula object: differentiate, mutate the term sequence, differentiate again
+
+HISTORY_TERMS = [("a",), ("b",), ("a", "b"), ("b", "c"), ("a", "b", "c")]
+HISTORY_OPS = ["del-first", "del-last", "del-slice", "pop", "remove-first", "clear", "append", "insert-front", "setitem-last"]
+
+
+def apply_op(F, op, new_term):
+    """mutate the SimpleFormula through its MutableSequence API; returns False if the operation does not apply"""
+    n = len(F)
+    if op in ("del-first", "del-last", "del-slice", "pop", "remove-first", "setitem-last") and n == 0:
+        return False
+    if op == "del-first":
+        del F[0]
+    elif op == "del-last":
+        del F[n - 1]
+    elif op == "del-slice":
+        del F[0:2]
+    elif op == "pop":
+        F.pop()
+    elif op == "remove-first":
+        F.remove(F[0])
+    elif op == "clear":
+        F.clear()
+    elif op == "append":
+        F.append(new_term)
+    elif op == "insert-front":
+        F.insert(0, new_term)
+    elif op == "setitem-last":
+        F[n - 1] = new_term
+    return True
+
+
+def drv_history(c, ctx, col):
+    from formulaic import Formula, ModelSpec
+
+    rhs, terms, icpt = choose_formula(c, ctx)
+    ordering = c.pick(ctx["orderings"])
+    wrt = choose_wrt(c, ctx)
+    ops = c.seq(HISTORY_OPS, ctx["ops"], 1)
+    via_spec = c.flag()
+    F = Formula(rhs, _ordering=ordering)       # a fresh object: it is mutated below
+    new_term = Formula("a:c - 1")[0]
+    ms = ModelSpec.from_spec(F) if via_spec else None
+    diff = (lambda: (ms.differentiate(*wrt).formula if via_spec else F.differentiate(*wrt)))
+    key = "history :: Formula(%r, _ordering=%r); differentiate(%s); %s; differentiate again%s" % (
+        rhs, ordering, ", ".join(repr(w) for w in wrt), "; ".join(ops), " (through ModelSpec.differentiate)" if via_spec else "")
+    detail = {"formula": rhs, "ordering": ordering, "wrt": list(wrt), "operations": ops, "via_model_spec": via_spec}
+    if via_spec and ms.formula is not F:
+        col.count("modelspec-copies-formula")
+        F = ms.formula
+    steps = []
+    try:
+        for i in range(len(ops) + 1):
+            held = side_terms(F)
+            got = side_terms(diff())
+            want = expected_terms(held, wrt)
+            steps.append({"held": held, "got": got, "want": want})
+            if len(got) != len(want) or any(w is not None and g != w for g, w in zip(got, want)):
+                col.violation(key, dict(detail, steps=steps), sig="stale-or-wrong-derivative-after-mutation" if i else "wrong-derivative-term")
+                return
+            if side_terms(F) != held:
+                col.violation(key, dict(detail, steps=steps), sig="original-formula-mutated")
+                return
+            if i < len(ops) and not apply_op(F, ops[i], new_term):
+                col.count("operation-not-applicable")
+                return
+    except Exception as e:
+        col.violation(key, dict(detail, steps=steps, error="%s: %s" % (type(e).__name__, str(e)[:200])), sig="history-raises")
+        return
+    col.interesting()
+    col.count("histories-agree")
+    col.sample({"formula": rhs, "wrt": list(wrt), "operations": ops, "via_model_spec": via_spec})
+
+
 # literal numeric factors: 2:a, a:2.5:b, ...
 
 LITERALS = ["2", "2.5", "5"]
@@ -624,10 +718,15 @@ def subchecks(tier, seed):
                                                               "ranks": [True]},
                         shard_depth=2, bounds={"names": "all but the function role (%d)" % (len(NAME_ROLES) - len(FUNC_NAMES)), "max_terms": 1, "term_pool": 7, "wrt_max_len": 2, "intercept": "on",
                                                "ensure_full_rank": [True], "paths": ["formula"], "data": "column N holds b's values"}))
+        subs.append(Sub("mutation-history", drv_history, {"terms": HISTORY_TERMS[:1] + HISTORY_TERMS[2:4], "n": 2, "wrt": 1, "wrt_vars": ["a", "b", "d"],
+                                                           "orderings": ["none", "degree"], "ops": 2},
+                        shard_depth=3, bounds={"term_pool": ["a", "a:b", "b:c"], "max_terms": 2, "wrt": "(), a, b, d",
+                                               "orderings": ["none", "degree"], "operations": HISTORY_OPS, "history_length": "1..2 mutations, "
+                                               "differentiate before, between and after", "entry": ["Formula.differentiate", "ModelSpec.differentiate"]}))
         subs.append(Sub("literal-symbolic", drv_literal_symbolic, {"literals": LITERALS[:2], "n": 2, "wrt": 2, "orderings": ["none"], "sides": ["simple"]},
                         shard_depth=3, bounds={"literal_factor": LITERALS[:2], "factors": "L, a, b, c (every product of <= 3 except the lone literal)",
                                                "factor_order": ["literal first", "reversed"], "max_terms": 2, "term_pool": 13, "wrt_max_len": 2}))
-        subs.append(Sub("literal-numeric", drv_literal_numeric, {"literals": LITERALS[:2], "n": 1, "wrt": 2, "paths": ["formula"]},
+        subs.append(Sub("literal-numeric", drv_literal_numeric, {"literals": LITERALS[:2], "n": 1, "wrt": 2, "paths": ["formula"], "rematerialize": True},
                         shard_depth=3, bounds={"literal_factor": LITERALS[:2], "max_terms": 1, "term_pool": 13, "factor_order": ["literal first", "reversed"],
                                                "wrt_max_len": 2, "ensure_full_rank": [True, False], "paths": ["formula"]}))
         subs.append(Sub("fitted-stateful", drv_fitted, {"terms": TERMS_STATEFUL, "n": 1, "wrt": 2, "ranks": [True], "eval_frames": EVAL_FRAMES},
@@ -674,12 +773,17 @@ def subchecks(tier, seed):
         subs.append(Sub("names-paths", drv_names_numeric, {"roles": NAME_ROLES, "n": 1, "wrt": 2, "paths": PATHS[1:], "icpts": [True]},
                         shard_depth=2, bounds={"names": "all but the function role (%d)" % (len(NAME_ROLES) - len(FUNC_NAMES)), "max_terms": 1, "wrt_max_len": 2, "intercept": "on",
                                                "ensure_full_rank": [True, False], "paths": PATHS[1:]}))
+        subs.append(Sub("mutation-history", drv_history, {"terms": HISTORY_TERMS, "n": 2, "wrt": 2, "wrt_vars": ["a", "b", "d"],
+                                                           "orderings": ["none", "degree"], "ops": 2},
+                        shard_depth=3, bounds={"term_pool": [":".join(t) for t in HISTORY_TERMS], "max_terms": 2, "wrt_max_len": 2, "wrt_vars": "a, b, d",
+                                               "orderings": ["none", "degree"], "operations": HISTORY_OPS, "history_length": "1..2 mutations",
+                                               "entry": ["Formula.differentiate", "ModelSpec.differentiate"]}))
         subs.append(Sub("literal-symbolic", drv_literal_symbolic, {"literals": LITERALS, "n": 2, "wrt": 3, "orderings": ["none", "degree"],
                                                                     "sides": ["simple", "y"]},
                         shard_depth=3, bounds={"literal_factor": LITERALS, "factors": "L, a, b, c (every product of <= 3 except the lone literal)",
                                                "factor_order": ["literal first", "reversed"], "max_terms": 2, "term_pool": 13, "wrt_max_len": 3,
                                                "orderings": ["none", "degree"], "sides": ["simple", "y ~"]}))
-        subs.append(Sub("literal-numeric", drv_literal_numeric, {"literals": LITERALS, "n": 1, "wrt": 3, "paths": PATHS, "outputs": ["pandas", "numpy"]},
+        subs.append(Sub("literal-numeric", drv_literal_numeric, {"literals": LITERALS, "n": 1, "wrt": 3, "paths": PATHS, "outputs": ["pandas", "numpy"], "rematerialize": True},
                         shard_depth=3, bounds={"literal_factor": LITERALS, "max_terms": 1, "term_pool": 13, "factor_order": ["literal first", "reversed"],
                                                "wrt_max_len": 3, "ensure_full_rank": [True, False], "paths": PATHS, "outputs": ["pandas", "numpy"]}))
         subs.append(Sub("fitted-stateful", drv_fitted, {"terms": TERMS_STATEFUL, "n": 2, "wrt": 2, "eval_frames": EVAL_FRAMES},
